@@ -109,7 +109,7 @@ func try(f func()) (e any) {
 func ExecReal(tr tranAPI, ut *db19.UpdateTran, o Op) (obs string) {
 	var t *Table
 	var sc *schema.Schema
-	if o.Kind != OpAbort {
+	if o.Kind != OpAbort && o.Kind != OpAbortGoOn && o.Kind != OpWait {
 		t = tableDef(o.Table)
 		sc = tr.GetSchema(o.Table)
 	}
@@ -165,7 +165,7 @@ func ExecReal(tr tranAPI, ut *db19.UpdateTran, o Op) (obs string) {
 			}
 			ut.Delete(nil, o.Table, dr.Off)
 			obs = "ok"
-		case OpAbort:
+		case OpAbort, OpAbortGoOn:
 			ut.Abort()
 			obs = "abort"
 		}
